@@ -43,8 +43,8 @@ impl Buildinfo {
     /// Get the binary package names
     pub fn binaries(&self) -> Option<Vec<String>> {
         self.0.get("Binary").map(|s| {
-            s.split(' ')
-                .map(|s| s.trim().to_string())
+            s.split_whitespace()
+                .map(|s| s.to_string())
                 .collect::<Vec<String>>()
         })
     }
